@@ -29,11 +29,11 @@ PROPS = {
         "technique": "property-based testing (rapid) with reference-model oracle + native go fuzz of label keys/values",
         "quick": {"jobs": [
             rapid_job("labels", "^TestC20Labels$", 20000),
-            rapid_job("metrics", "^TestC20Metrics$", 3000),
+            rapid_job("metrics", "^TestC20Metrics$", 3000, requires="verif_metrics"),
         ]},
         "thorough": {"jobs": [
             rapid_job("labels", "^TestC20Labels$", 200000, shards=8),
-            rapid_job("metrics", "^TestC20Metrics$", 30000, shards=8),
+            rapid_job("metrics", "^TestC20Metrics$", 30000, shards=8, requires="verif_metrics"),
             fuzz_job("fuzz-labels", "^FuzzC20Labels$", fuzztime="60s", workers=8),
         ], },
         "log_violations": True,
@@ -120,8 +120,8 @@ PROPS["C09"] = {
     "level_text": "Stateful property test on the virtual clock: reconcile requests arrive at generated instants (sub-second to minutes apart, so the one-second truncation of stored timestamps is exercised); after every active sync the number of pod Creates is compared with min(maxParallelPodCreation, (1+floor(t/interval))*increase) computed in big integers from the state read, update-deletions with maxUnavailable, and two write-issuing syncs of one replica set must be >= reconcileFrequency-1s apart when the first status write succeeded. Function-level: sync pairs at generated second fractions and gaps around reconcileFrequency (TestC09Spacing), and the ramp itself at exact instants k*interval-1ns/0/+1ns through a build-tagged shim, compared for equality with the reference formula (TestC09Ramp).",
     "level_note": SM_NOTE + " t is measured from the Active condition's stored (second-truncated) transition time, one extra second of slack is granted.",
     "technique": "stateful property-based testing (rapid) on a virtual clock with a reference ramp formula",
-    "quick": {"jobs": [rapid_job("sm", "^TestC09SM$", 750, shards=4), rapid_job("spacing", "^TestC09Spacing$", 2000), rapid_job("ramp", "^TestC09Ramp$", 30000)]},
-    "thorough": {"jobs": [rapid_job("sm", "^TestC09SM$", 4000, shards=14, timeout="50m"), rapid_job("spacing", "^TestC09Spacing$", 20000, shards=2), rapid_job("ramp", "^TestC09Ramp$", 500000)]},
+    "quick": {"jobs": [rapid_job("sm", "^TestC09SM$", 750, shards=4), rapid_job("spacing", "^TestC09Spacing$", 2000), rapid_job("ramp", "^TestC09Ramp$", 30000, requires="verif_rolling")]},
+    "thorough": {"jobs": [rapid_job("sm", "^TestC09SM$", 4000, shards=14, timeout="50m"), rapid_job("spacing", "^TestC09Spacing$", 20000, shards=2), rapid_job("ramp", "^TestC09Ramp$", 500000, requires="verif_rolling")]},
 }
 
 PROPS["C12"] = {
@@ -228,8 +228,8 @@ PROPS["C17"] = {
     "level_text": "Built with the Go race detector. (a) Batches of 2-64 simultaneous pod creations, update-deletions and clean-up deletions through the controller's parallel helpers and through whole replica-set Reconciles, with a generated subset (none/some/all) of the API calls failing: the number of errors returned must equal the number of injected failures, ReconcileError must be True iff a pod operation failed and a failed clean-up must show in ReconcileError or PodsCleanupDone. (b) The ExtendedDaemonSet, replica-set (two workers), setting and PodTemplate reconcilers, a kubelet model and a user run as goroutines against one store for a bounded number of iterations with a generated fraction of writes failing; any race report or panic is a violation.",
     "level_note": "Interleavings are those the Go scheduler produces under -race with GOMAXPROCS=16; the harness does not own the schedule. The race detector's happens-before analysis flags an unsynchronised access even when no update is actually lost.",
     "technique": "property-based testing (rapid) of generated concurrent workloads under the Go race detector, with an error-count oracle under injected faults",
-    "quick": {"jobs": [rapid_job("batches", "^TestC17Batches$", 120, shards=2), rapid_job("concurrent", "^TestC17Concurrent$", 40, shards=2)]},
-    "thorough": {"jobs": [rapid_job("batches", "^TestC17Batches$", 800, shards=8, timeout="50m"), rapid_job("concurrent", "^TestC17Concurrent$", 300, shards=8, timeout="50m")]},
+    "quick": {"jobs": [rapid_job("batches", "^TestC17Batches$", 120, shards=2, requires="verif_par"), rapid_job("concurrent", "^TestC17Concurrent$", 40, shards=2)]},
+    "thorough": {"jobs": [rapid_job("batches", "^TestC17Batches$", 800, shards=8, timeout="50m", requires="verif_par"), rapid_job("concurrent", "^TestC17Concurrent$", 300, shards=8, timeout="50m")]},
 }
 
 PROPS["C19"] = {
